@@ -221,6 +221,12 @@ func e2eCases(t *testing.T, prop string) {
 				rec.Fail(rt, sig, fmt.Sprintf("thru join ended with status %d | %s\n--- join log (tail) ---\n%s\n--- host log (errors) ---\n%s", status, desc, tailOf(jlog, 1500), grepErrors(host.log.String())))
 				return
 			}
+			if prop == "C09" && strings.Contains(jlog, "failed to accept extra connections") && (strings.Contains(jlog, "race_lost") || strings.Contains(jlog, "Application error 0x0")) {
+				// the transfer went through on one connection, but only after the receiver had taken a
+				// connection the sender abandoned for one of the additional connections and given up
+				rec.Fail(rt, "e2e:extra-connection-slot-taken-by-abandoned-attempt", fmt.Sprintf("the receiver committed to an abandoned connection while waiting for the additional connections and lost them | %s\n--- join log (tail) ---\n%s", desc, tailOf(jlog, 1200)))
+				return
+			}
 			got, derr := verifnet.Digest(out)
 			if derr != nil {
 				rec.Fail(rt, "e2e:output-unreadable", derr.Error()+" | "+desc)
